@@ -22,6 +22,7 @@ type opDef struct {
 	body   bool   // task transition fails
 }
 
+// the operations of the first version of this harness come first: their indexes appear in recorded replays
 var ops = []opDef{
 	{"START", "START_ACTIVITY", "CONFIGURED", "", false},
 	{"START!before-1", "START_ACTIVITY", "CONFIGURED", "before_START_ACTIVITY-1", false},
@@ -39,6 +40,37 @@ var ops = []opDef{
 	{"RECOVER", "RECOVER", "ERROR", "", false},
 	{"CONFIGURE", "CONFIGURE", "DEPLOYED", "", false},
 	{"RESET", "RESET", "CONFIGURED", "", false},
+}
+
+// every other placement of a failing hook: both weights of every moment of START_ACTIVITY and STOP_ACTIVITY
+// (and weight 0 of before_START_ACTIVITY), and the failing hooks of GO_ERROR - a GO_ERROR cancelled by a hook at
+// before_/leave_ leaves the run open (with or without its end stamp), one failing later ends it with an error.
+func init() {
+	have := map[string]bool{}
+	for _, o := range ops {
+		have[o.name] = true
+	}
+	add := func(name, event, src, failAt string) {
+		if !have[name] {
+			have[name] = true
+			ops = append(ops, opDef{name, event, src, failAt, false})
+		}
+	}
+	add("START!before+0", "START_ACTIVITY", "CONFIGURED", "before_START_ACTIVITY+0")
+	for _, w := range []string{"-1", "+1"} {
+		add("START!before"+w, "START_ACTIVITY", "CONFIGURED", "before_START_ACTIVITY"+w)
+		add("START!leave"+w, "START_ACTIVITY", "CONFIGURED", "leave_CONFIGURED"+w)
+		add("START!enter"+w, "START_ACTIVITY", "CONFIGURED", "enter_RUNNING"+w)
+		add("START!after"+w, "START_ACTIVITY", "CONFIGURED", "after_START_ACTIVITY"+w)
+		add("STOP!before"+w, "STOP_ACTIVITY", "RUNNING", "before_STOP_ACTIVITY"+w)
+		add("STOP!leave"+w, "STOP_ACTIVITY", "RUNNING", "leave_RUNNING"+w)
+		add("STOP!enter"+w, "STOP_ACTIVITY", "RUNNING", "enter_CONFIGURED"+w)
+		add("STOP!after"+w, "STOP_ACTIVITY", "RUNNING", "after_STOP_ACTIVITY"+w)
+		add("GO_ERROR!before"+w, "GO_ERROR", "*", "before_GO_ERROR"+w)
+		add("GO_ERROR!leave"+w, "GO_ERROR", "*", "leave_RUNNING"+w+",leave_CONFIGURED"+w)
+		add("GO_ERROR!enter"+w, "GO_ERROR", "*", "enter_ERROR"+w)
+		add("GO_ERROR!after"+w, "GO_ERROR", "*", "after_GO_ERROR"+w)
+	}
 }
 
 func probes() []envsim.Hook {
@@ -76,7 +108,9 @@ func execHistory(hist []int) (key string, applicable bool, viol []vrt.Violation)
 			}
 			w.FailNow = map[string]bool{}
 			if o.failAt != "" {
-				w.FailNow[o.failAt] = true
+				for _, id := range strings.Split(o.failAt, ",") {
+					w.FailNow[id] = true
+				}
 			}
 			w.Note("op", fmt.Sprintf("%d:%s", i, o.name))
 			w.Transition(o.event, fmt.Sprint(i), o.body)
@@ -149,12 +183,14 @@ func oracle(w *envsim.World, hist []int) (viol []vrt.Violation) {
 	opIdx := -1
 	var od opDef
 	assignedThisOp := false // run number of the current START op has been (should have been) assigned
+	preN, preSOSOR := "", ""  // what the negative-weight before_START_ACTIVITY hooks of the current START op saw
 	for _, r := range w.Recs {
 		switch r.Kind {
 		case "op":
 			opIdx++
 			od = ops[hist[opIdx]]
 			assignedThisOp = false
+			preN, preSOSOR = "", ""
 			continue
 		case "spawn", "end":
 			continue
@@ -186,6 +222,7 @@ func oracle(w *envsim.World, hist []int) (viol []vrt.Violation) {
 			// remember what is visible now to compare with what gets assigned
 			// ... and nothing of an earlier, completely stopped run is visible any more ("gone afterwards",
 			// "values of a previous run are never visible in the next"), under either name
+			preN, preSOSOR = v["run_number"], v["run_start_time_ms"]
 			if cur != nil && !cur.open && cur.stopped && (v["run_number"] != "" || v["runNumber"] != "") {
 				fail("previous-run-number-visible-before-set-point", "at %s:%s run_number=%q runNumber=%q, run %s was stopped", r.Kind, r.ID, v["run_number"], v["runNumber"], cur.n)
 			}
@@ -206,6 +243,13 @@ func oracle(w *envsim.World, hist []int) (viol []vrt.Violation) {
 			}
 			if v["run_start_time_ms"] == "" {
 				fail("SOSOR-not-set-before-nonnegative-hooks", "at %s:%s", r.Kind, r.ID)
+			}
+			// set AFTER the negative-weight hooks: they have not seen the new number / start time yet
+			if n != "" && preN == n {
+				fail("number-already-set-at-negative-weight-hooks", "before_START_ACTIVITY-1 already saw run_number=%q", preN)
+			}
+			if preSOSOR != "" && preSOSOR == v["run_start_time_ms"] {
+				fail("SOSOR-already-set-at-negative-weight-hooks", "before_START_ACTIVITY-1 already saw run_start_time_ms=%q", preSOSOR)
 			}
 			for _, s := range stamps[1:] {
 				if v[s] != "" {
@@ -328,15 +372,19 @@ func main() {
 		}}, {
 		Name: "runs-all", Prop: "C10", Doc: "every history up to a small depth, no state merging",
 		Direct: func(r *vrt.DirectReport, tier string) {
-			depth := 3
+			// the basic alphabet (one failing placement per moment) deeper, the full one (every placement) one step less
+			depth, nBasic := 3, 16
 			if tier == "thorough" {
 				depth = 4
 			}
-			res := vrt.BFS(vrt.BFSSpec{Ops: names, MaxDepth: depth, Exec: func(h []int) (string, bool, []vrt.Violation) {
+			unmerged := func(h []int) (string, bool, []vrt.Violation) {
 				k, ok, v := execHistory(h)
 				return fmt.Sprint(h) + k, ok, v
-			}})
+			}
+			res := vrt.BFS(vrt.BFSSpec{Ops: names[:nBasic], MaxDepth: depth, Exec: unmerged})
 			res.Report(r, "all")
-			r.Notes = append(r.Notes, fmt.Sprintf("unmerged histories depth<=%d", depth))
+			res = vrt.BFS(vrt.BFSSpec{Ops: names, MaxDepth: depth - 1, Exec: unmerged})
+			res.Report(r, "all-placements")
+			r.Notes = append(r.Notes, fmt.Sprintf("unmerged histories: basic alphabet (%d operations) depth<=%d, every placement of a failing hook (%d operations) depth<=%d", nBasic, depth, len(names), depth-1))
 		}}})
 }
